@@ -66,23 +66,20 @@ Definition pstep (p : pst) (a : action) : pst :=
 Definition pinit (c : wcfg) : pst := (fst (winit c), has_trap (snd (winit c))).
 Definition prun (c : wcfg) (tr : list action) : pst := fold_left pstep tr (pinit c).
 
-(** ** The finite alphabet of the universe: tasks 0-1, operations 0-1, counts 0-4 *)
+(** ** The finite alphabet of the one-operation universe: tasks 0-1, operation 0, counts 0-4 *)
 Definition codes : list N :=
   BLOCKED :: 3 :: 4 :: flat_map (fun n => [16 * n; 1 + 16 * n; 2 + 16 * n]) [0; 1; 2; 3; 4].
 Definition answers : list (option N) := None :: map Some codes.
 Definition actions : list action :=
-  flat_map (fun t => flat_map (fun o => flat_map (fun a => [APoll t o a; ACancel t o a; ADrop t o a]) answers) [0; 1]) [0; 1]
-  ++ flat_map (fun o => map (AHost o) codes) [0; 1]
-  ++ flat_map (fun t => [ADeliver t None; ADeliver t (Some 0); ADeliver t (Some 1)]) [0; 1].
+  flat_map (fun t => flat_map (fun a => [APoll t 0 a; ACancel t 0 a; ADrop t 0 a]) answers) [0; 1]
+  ++ map (AHost 0) codes
+  ++ flat_map (fun t => [ADeliver t None; ADeliver t (Some 0)]) [0; 1].
 Definition in_alphabet (a : action) : bool := existsb (fun b => if action_eq_dec a b then true else false) actions.
 Lemma in_alphabet_In a : in_alphabet a = true -> In a actions.
 Proof.
   unfold in_alphabet. rewrite existsb_exists. intros [b [Hb He]].
   destruct (action_eq_dec a b); congruence.
 Qed.
-
-(** Validity inside the universe. *)
-Definition valid_u (s : wst) (a : action) : bool := in_alphabet a && valid_step s a.
 
 (** ** Hash-bucketed state sets *)
 Definition hmix (h x : N) : N := (h * 31 + x + 7) mod 1099511627776.
@@ -137,3 +134,76 @@ Fixpoint explore (fuel : nat) (frontier : list pst) (m : sset) : sset :=
       end
   end.
 Definition reach_set (c : wcfg) : sset := explore 200 [pinit c] (ss_add (pinit c) (PM.empty _)).
+
+(** ** Closure and the invariant on the reachable set *)
+Definition closed (c : wcfg) (m : sset) : bool :=
+  ss_mem (pinit c) m &&
+  forallb (fun p => forallb (fun a => negb (valid_step (fst p) a) || ss_mem (pstep p a) m) actions) (ss_all m).
+
+Definition pending_codes (s : wst) : N :=
+  N.of_nat (length (filter (fun x => match o_code x with Some _ => true | None => false end) (w_ops s))).
+
+(** (i)+(iv): a registration [(w -> o)] of task [t]. *)
+Definition map_entry_ok (s : wst) (t : mtask) (e : N * N) : bool :=
+  let (w, o) := e in
+  let x := get_op s o in
+  (N.to_nat o <? length (w_ops s))%nat
+  && match o_phase x with OProg => true | _ => false end
+  && match o_handle x with Some w' => w' =? w | None => false end
+  && match o_code x with None => true | Some _ => false end
+  && match o_waker x with Some _ => true | None => false end
+  && match t_set t, alookup w (joined (w_h s)) with Some st, Some sj => st =? sj | _, _ => false end.
+
+(** every joined waitable is registered with the task that owns the set *)
+Definition joined_entry_ok (s : wst) (e : N * N) : bool :=
+  let (w, st) := e in
+  existsb (fun t => match t_set t with Some s' => (s' =? st) && amem w (t_map t) | None => false end) (w_tasks s).
+
+Definition all_gone (s : wst) : bool := forallb (fun x => match o_phase x with OGone => true | _ => false end) (w_ops s).
+
+Definition inv_ok (p : pst) : bool :=
+  let s := fst p in
+  negb (snd p)
+  && match w_err s with None => true | Some _ => false end
+  && negb (w_bad s)
+  && (w_handed s =? w_updates s + pending_codes s)
+  && forallb (fun t => forallb (map_entry_ok s t) (t_map t)) (w_tasks s)
+  && forallb (joined_entry_ok s) (joined (w_h s))
+  && (negb (all_gone s)
+      || (forallb (fun t => match t_map t with [] => Z.eqb (t_clones t) 0 | _ => false end) (w_tasks s)
+          && match joined (w_h s) with [] => true | _ => false end)).
+
+(** side conditions that make every valid action a member of the alphabet *)
+Definition bounded (p : pst) : bool :=
+  (length (w_ops (fst p)) =? 1)%nat
+  && forallb (fun e => existsb (N.eqb (snd (snd e))) codes) (ready (w_h (fst p))).
+
+(** One configuration: explore, then check closure, invariant and boundedness on the whole set. *)
+Definition check_cfg (c : wcfg) : bool :=
+  let m := reach_set c in
+  closed c m && forallb inv_ok (ss_all m) && forallb bounded (ss_all m).
+
+Definition cfgs1 (a b half : bool) : list wcfg := map (fun k => mkWcfg a b [k]) (if half then [KSt; KSr] else [KSw; KFr]).
+
+(** ** Two-operation universes: the same exploration with the alphabet over operations 0-1.
+    Too large for the VM within the build budget (about 5*10^4 states per configuration); run natively
+    through extraction by checks/c18.py as exhaustive model checking of the extracted model (evidence,
+    not a proof). *)
+Definition actions2 : list action :=
+  flat_map (fun t => flat_map (fun o => flat_map (fun a => [APoll t o a; ACancel t o a; ADrop t o a]) answers) [0; 1]) [0; 1]
+  ++ flat_map (fun o => map (AHost o) codes) [0; 1]
+  ++ flat_map (fun t => [ADeliver t None; ADeliver t (Some 0); ADeliver t (Some 1)]) [0; 1].
+Definition succs2 (p : pst) : list pst := map (pstep p) (filter (valid_step (fst p)) actions2).
+Fixpoint explore2 (fuel : nat) (frontier : list pst) (m : sset) : sset :=
+  match fuel with
+  | O => m
+  | S f =>
+      match frontier with
+      | [] => m
+      | _ => let (n, m') := add_new (flat_map succs2 frontier) m in explore2 f n m'
+      end
+  end.
+(** (all reachable states satisfy the invariant, number of states) *)
+Definition explore_cfg2 (c : wcfg) : bool * nat :=
+  let m := explore2 400 [pinit c] (ss_add (pinit c) (PM.empty _)) in
+  (forallb inv_ok (ss_all m), length (ss_all m)).
